@@ -73,6 +73,7 @@ DecMid == {-2, 0, 2}
 DecTwo == {-2, 2}
 DecZero == {0}
 Cap1 == <<1, 1>>
+NewKsA == {<<7, 1>>, <<1, 20>>}
 (* ASCII order of every substance name used in the pools (what sorting by name gives) *)
 NameOrderA == << "C3H5OH", "C3H6O", "CH2C(OH)CH3", "CH2CHCH2OH", "CH3CH2CHO", "CH3CHCHOH", "CH3COCH3", "H", "H+", "H2", "H2O", "H2O2", "HO2", "M", "N2", "N2O4", "NH3", "NO", "NO2", "O(CH2)3", "O2", "O2-", "OH", "OH-", "ONO", "ONONO2", "e-", "hv" >>
 BuildCfgsA == << [name |-> "default", checked |-> TRUE], [name |-> "checks_balance", checked |-> TRUE],
